@@ -54,8 +54,9 @@ def verify(pid, name, src, demo_arg='bin'):
                 a_without = wt + '-clean'
                 sh('git -C %s worktree remove --force %s' % (REPO, a_without))
                 sh('git -C %s worktree add --detach %s main' % (REPO, a_without))
-            rc1, o1 = sh('sh ./demo.sh %s' % a_with, cwd=scratch, env=env, timeout=1800)
-            rc2, o2 = sh('sh ./demo.sh %s' % a_without, cwd=scratch, env=env, timeout=1800)
+            shell = 'bash' if 'bash' in open(demo).readline() else 'sh'
+            rc1, o1 = sh('%s ./demo.sh %s' % (shell, a_with), cwd=scratch, env=env, timeout=1800)
+            rc2, o2 = sh('%s ./demo.sh %s' % (shell, a_without), cwd=scratch, env=env, timeout=1800)
             res['demo_with_change'] = {'rc': rc1, 'tail': o1[-600:]}
             res['demo_without_change'] = {'rc': rc2, 'tail': o2[-600:]}
             res['steps']['demo_fails_with'] = rc1 != 0
